@@ -241,7 +241,10 @@ def run_impl(ctx, cases, timeout=600, quick_watchdog=False):
         res = _par_lines(cmd, [cases[i] for i in todo], timeout)
         nxt = []
         for i, r in zip(todo, res):
-            if r == "SKIPPED":
+            # HANG = the shard's process ran into the overall time limit (every case has its own watchdog inside the harness, so on
+            # a loaded machine this is about throughput, not about this case): the case is run again, in a smaller batch; only a
+            # case that still exceeds the limit on the last attempt keeps the verdict
+            if r == "SKIPPED" or (r == "HANG" and attempt < 3):
                 nxt.append(i)
             else:
                 out[i] = r
